@@ -928,6 +928,7 @@ func Run(ctx *core.Ctx) {
 		dualSubscription(ctx, bin)
 		enterExitProbe(ctx, bin)
 		unsubscribeProbe(ctx, bin)
+		foreignUnsubscribeProbe(ctx, bin)
 	}()
 	defer rwg.Wait()
 	for i, c := range cfgs {
